@@ -112,7 +112,8 @@ PROPS = {
         "design_ref": "DESIGN.md §4.7",
     },
     "C13": {
-        "units": [solve_unit("harness/solve/src/c13.rs")],
+        "units": [dict(solve_unit("harness/solve/src/c13.rs", "harness/solve/src/c13_pairs.rs"),
+                       modules={"harness/solve/src/c13.rs": "c13", "harness/solve/src/c13_pairs.rs": "c13"})],
         "claim": "Solution::combine (chalk-solve/src/solve.rs), the operation documented as independent of argument "
                  "order through which the recursive solver merges the solutions of different clauses: for all 8 x 8 "
                  "pairs of candidate kinds (Unique trivially-true / with a constraint / ground, Definite identity / "
@@ -120,7 +121,7 @@ PROPS = {
                  "combine(a, a) == a, and the result is Unique / Definite(s) / Suggested(s) only when the candidates "
                  "support it.",
         "bounds": "one-variable canonical substitutions (identity or ground with symbolic id), at most one lifetime "
-                  "constraint; unwind 10",
+                  "constraint; one query per ordered pair of candidate kinds; unwind 6",
         "outside": "declaration-order independence of WHOLE solves (program lowering, clause enumeration, "
                    "merge_into_guidance's arrival order, the engines) - those need solver runs, which do not finish "
                    "under CBMC (DESIGN.md §4.1); this check decides only the commutativity of the combination step",
@@ -128,6 +129,7 @@ PROPS = {
         "stubs": ["tracing, tracing-attributes: no-op stub crates via [patch.crates-io]"],
         "trusted_base": VINTERNER_TB,
         "harness_note_default": "combine(a,b)==combine(b,a); result never stronger than the candidates; ids symbolic",
+        "timeout_quick_s": 300, "timeout_thorough_s": 300,
         "level_text": "Bounded model checking (Kani/CBMC) of the real Solution::combine for every pair of candidate "
                       "kinds with symbolic ids. Partial with respect to the property: only the combination step, the "
                       "one place the code documents order independence.",
